@@ -133,8 +133,9 @@ def pass_implication(prog, cfg, obs):
         phase_opts[n[1]] = n[2]
         if excused:
           continue
-        if n[2].get('run_if') is False:
-          continue
+        ri = n[2].get('run_if')
+        if ri is False or (isinstance(ri, list) and ri[0] is False):
+          continue     # (first) run_if verdict false: documented skip
         if n[1] not in calls:
           out.append(('false-pass:declared-phase-never-ran', {'phase': n[1]}))
       elif k == 'S':
@@ -166,6 +167,9 @@ def pass_implication(prog, cfg, obs):
     for idx, p in enumerate(obs['phases']):
       if p[1] in ('FAIL', 'ERROR'):
         later = p[0] in names[idx + 1:]
+        ri = (phase_opts.get(p[0]) or {}).get('run_if')
+        if isinstance(ri, list) and False in ri[1:]:
+          later = True   # the later attempt was skipped by a stateful run_if
         o = (phase_opts.get(p[0]) or {}).get('opts') or {}
         if not (later and p[1] == 'ERROR' and
                 (o.get('force_repeat') or o.get('repeat_on_timeout'))):
